@@ -1593,9 +1593,11 @@ impl<'a, K: Hash + Eq, V, E: OnEvictCallback, S: BuildHasher> IntoIterator
 
 impl<K: Hash + Eq, V> FromIterator<(K, V)> for RawLRU<K, V> {
     fn from_iter<T: IntoIterator<Item = (K, V)>>(iter: T) -> Self {
-        let iter = iter.into_iter();
-        let mut this = Self::new(iter.size_hint().0).unwrap();
-        iter.for_each(|(k, v)| {
+        // size the cache by the number of items actually produced (the size hint is only a
+        // lower bound and may be 0); an empty source still yields a usable cache
+        let items: Vec<(K, V)> = iter.into_iter().collect();
+        let mut this = Self::new(core::cmp::max(items.len(), 1)).unwrap();
+        items.into_iter().for_each(|(k, v)| {
             this.put(k, v);
         });
         this
